@@ -423,7 +423,7 @@ def check_pack(ctx, res: Result, prop_id: str):
             if imp[0] == "symbol" and imp[1] in ctx.prog.modules and imp[1].split(".")[-1].startswith("_") and ctx.prog.modules[imp[1]] not in mods:
                 mods.append(ctx.prog.modules[imp[1]])
     fis = [fi for fi in ctx.prog.functions.values() if fi.module in mods]
-    lints = (("G-STALE", check_stale_in_loop), ("G-REUSE", check_iterator_reuse), ("N-FANCYAUG", check_fancy_augassign), ("G-GROUPBY", check_groupby_sorted), ("E-SHARED", check_shared_literals), ("G-LIVEITER", check_mutation_while_iterating), ("E-DEFAULTARG", check_mutable_defaults), ("G-KEYPROJ", check_key_projection), ("K-OWNER", check_id_owner), ("G-COUNTERADD", check_counter_arith), ("G-ZEROBUCKET", check_zero_buckets), ("G-LENVALID", check_len_validated_cache), ("G-SHAPEGUESS", check_layout_guess), ("K-LABELTYPE", check_label_type_dispatch), ("G-ZIPALIGN", check_zip_alignment), ("G-TRUTHY0", check_truthy_index), ("G-PYTRAP", check_python_traps), ("G-LOSSYKEY", check_lossy_keys), ("G-TRISTATE", check_tristate_flag), ("N-TRACEMUL", check_trace_of_elementwise), ("G-REUSEDREC", check_reused_record), ("G-LOOPLEAK", check_loop_leak), ("G-ACCRESET", check_accumulator_reset), ("G-ARGSWAP", check_swapped_arguments), ("K-SORTPAIR", check_sorted_pair), ("K-ROLEMEM", check_role_membership), ("G-ORFLAG", check_or_merged_flag))
+    lints = (("G-STALE", check_stale_in_loop), ("G-REUSE", check_iterator_reuse), ("N-FANCYAUG", check_fancy_augassign), ("G-GROUPBY", check_groupby_sorted), ("E-SHARED", check_shared_literals), ("G-LIVEITER", check_mutation_while_iterating), ("E-DEFAULTARG", check_mutable_defaults), ("G-KEYPROJ", check_key_projection), ("K-OWNER", check_id_owner), ("G-COUNTERADD", check_counter_arith), ("G-ZEROBUCKET", check_zero_buckets), ("G-LENVALID", check_len_validated_cache), ("G-SHAPEGUESS", check_layout_guess), ("K-LABELTYPE", check_label_type_dispatch), ("G-ZIPALIGN", check_zip_alignment), ("G-TRUTHY0", check_truthy_index), ("G-PYTRAP", check_python_traps), ("G-LOSSYKEY", check_lossy_keys), ("G-TRISTATE", check_tristate_flag), ("N-TRACEMUL", check_trace_of_elementwise), ("G-REUSEDREC", check_reused_record), ("G-LOOPLEAK", check_loop_leak), ("G-ACCRESET", check_accumulator_reset), ("G-ARGSWAP", check_swapped_arguments), ("K-SORTPAIR", check_sorted_pair), ("K-ROLEMEM", check_role_membership), ("G-ORFLAG", check_or_merged_flag), ("G-ORGET", check_falsy_fallback), ("G-HASHABLE", check_hashable_dispatch), ("K-PAIRLEN", check_len_of_pair), ("G-EMPTYNONE", check_empty_as_missing))
     seen_keys = {(o.rule, o.func, o.stmt) for o in res.obs}
     for rule, fn in lints:
         n_f = n_v = 0
@@ -931,6 +931,15 @@ def check_label_type_dispatch(ctx, res: Result, dotted, rule="K-LABELTYPE"):
             # only a test that steers control flow / a value (not an assertion message)
             n += 1
             res.violation(rule, f, norm(c)[:100], norm(c.args[0])[:40], f"`{norm(c.args[0])[:40]}` is a node label here; `{norm(c)[:60]}` dispatches on its Python type, but labels are opaque (a hyperedge of two tuple-labelled nodes has exactly the shape of a (source, target) pair): such a hyperedge is taken apart into the components of its labels", loc(fi, c))
+    # the same decision taken for a whole sequence: `len(e) == 2 and all(isinstance(part, (tuple, list)) for part in e)` reads "a
+    # (source, target) pair" off the shape - an undirected hyperedge of two tuple-labelled nodes has exactly that shape
+    for b in walk_no_nested(fi.node):
+        if isinstance(b, ast.BoolOp) and isinstance(b.op, ast.And):
+            lens = [x for x in b.values if isinstance(x, ast.Compare) and len(x.ops) == 1 and isinstance(x.ops[0], ast.Eq) and isinstance(x.left, ast.Call) and norm(x.left.func) == "len" and isinstance(x.comparators[0], ast.Constant) and x.comparators[0].value == 2]
+            alls = [x for x in b.values if isinstance(x, ast.Call) and isinstance(x.func, ast.Name) and x.func.id == "all" and x.args and isinstance(x.args[0], (ast.GeneratorExp, ast.ListComp)) and isinstance(x.args[0].elt, ast.Call) and norm(x.args[0].elt.func) == "isinstance" and {y.id for y in ast.walk(x.args[0].elt.args[1]) if isinstance(y, ast.Name)} & {"tuple", "list"}]
+            if lens and alls and norm(lens[0].left.args[0]) == norm(alls[0].args[0].generators[0].iter):
+                n += 1
+                res.violation(rule, f, norm(b)[:100], norm(lens[0].left.args[0])[:30], f"`{norm(b)[:70]}` takes a sequence for a (source, target) pair because it has two parts that are tuples: a hyperedge of two nodes with tuple labels (grid coordinates) has the same shape and is flattened into the union of its labels' components", loc(fi, b))
     if n == 0:
         res.ok(rule, f, "no dispatch on the type of a node label", "scan", loc(fi, fi.node))
 
@@ -1555,6 +1564,104 @@ def check_or_merged_flag(ctx, res: Result, dotted, rule="G-ORFLAG"):
                 res.violation(rule, f, norm(a)[:90], first.id, f"`{first.id}` defaults to True, so `{norm(a.value)[:50]}` is True whatever the other option says: passing the other option as False (the legacy spelling of `{first.id}=False`) has no effect", loc(fi, a))
     if n == 0:
         res.ok(rule, f, "no default-True flag merged with `or`", "scan", loc(fi, fi.node))
+
+
+def check_falsy_fallback(ctx, res: Result, dotted, rule="G-ORGET"):
+    """`metadata.get(name) or record.get(name)`: the second place is consulted whenever the first yields a FALSY value - also when the
+    first holds a legitimate 0 / 0.0 / "" (a zero weight, time 0, a layer called "" or 0).  The value is then taken from the other
+    place or comes back as None."""
+    v = ctx.view(dotted)
+    fi = v.fi
+    f = fi.short
+    res.rules.setdefault(rule, "a value looked up in two places falls back on `is None` / membership, never on truthiness (`a.get(k) or b.get(k)` loses a stored 0 / \"\")")
+    n = 0
+    for b in walk_no_nested(fi.node):
+        if isinstance(b, ast.BoolOp) and isinstance(b.op, ast.Or) and len(b.values) == 2:
+            l, r = b.values
+            def is_get(e):
+                return isinstance(e, ast.Call) and isinstance(e.func, ast.Attribute) and e.func.attr == "get" and len(e.args) == 1 and not e.keywords
+            if is_get(l) and is_get(r) and norm(l.args[0]) == norm(r.args[0]) and norm(l.func.value) != norm(r.func.value):
+                n += 1
+                res.violation(rule, f, norm(b)[:90], norm(l.args[0])[:20], f"`{norm(b)[:60]}` consults `{norm(r.func.value)[:20]}` whenever `{norm(l)[:30]}` is falsy: a stored 0 / 0.0 / \"\" (a zero weight, time 0, layer 0) is treated as missing and replaced by the other place's value or None", loc(fi, b))
+    if n == 0:
+        res.ok(rule, f, "no two-place lookup by truthiness", "scan", loc(fi, fi.node))
+
+
+def check_hashable_dispatch(ctx, res: Result, dotted, rule="G-HASHABLE"):
+    """`isinstance(values, Hashable)` used to tell "one value" from "a collection of values": tuples, frozensets and ranges are
+    hashable collections, so a collection given in one of those forms is taken for a single value."""
+    v = ctx.view(dotted)
+    fi = v.fi
+    f = fi.short
+    res.rules.setdefault(rule, "a single value is not told apart from a collection of values by `isinstance(x, Hashable)` (tuples / frozensets / ranges are hashable collections)")
+    n = 0
+    for c in walk_no_nested(fi.node):
+        if isinstance(c, ast.Call) and isinstance(c.func, ast.Name) and c.func.id == "isinstance" and len(c.args) == 2 and any((isinstance(x, ast.Name) and x.id == "Hashable") or (isinstance(x, ast.Attribute) and x.attr == "Hashable") for x in ast.walk(c.args[1])):
+            n += 1
+            res.violation(rule, f, norm(c)[:90], norm(c.args[0])[:30], f"`{norm(c)[:60]}` decides that `{norm(c.args[0])[:20]}` is ONE value: a tuple / frozenset / range of allowed values is hashable too and is then compared as a whole, so nothing matches it", loc(fi, c))
+    if n == 0:
+        res.ok(rule, f, "no Hashable dispatch", "scan", loc(fi, fi.node))
+
+
+def check_len_of_pair(ctx, res: Result, dotted, rule="K-PAIRLEN"):
+    """`sorted(edges, key=len)` / `len(e)` where `e` is a directed hyperedge (source nodes, target nodes): the length of the PAIR is
+    always 2 - it is not the size of the hyperedge."""
+    from .kinds import Lst, Seq, St, Tup, elem_of, strip_none
+
+    v = ctx.view(dotted)
+    fi = v.fi
+    f = fi.short
+    res.rules.setdefault(rule, "the size of a directed hyperedge is never taken as len() of its (source, target) pair (which is always 2)")
+    n = 0
+
+    def is_pair(k):
+        k = strip_none(k)
+        return isinstance(k, Tup) and len(k.items) == 2 and all(isinstance(strip_none(i), Seq) for i in k.items)
+
+    for c in walk_no_nested(fi.node):
+        if isinstance(c, ast.Call) and isinstance(c.func, ast.Name) and c.func.id in ("sorted", "min", "max") and c.args and any(k.arg == "key" and isinstance(k.value, ast.Name) and k.value.id == "len" for k in c.keywords):
+            try:
+                kk = strip_none(ctx.interp.kind_at(fi, c.args[0]))
+            except Exception:
+                continue
+            if isinstance(kk, (Lst, St)) and is_pair(elem_of(kk)):
+                n += 1
+                res.violation(rule, f, norm(c)[:90], "key=len", f"`{norm(c)[:60]}` orders (source, target) pairs by `len`, which is 2 for every directed hyperedge: the order is the insertion order, not the order of sizes", loc(fi, c))
+        if isinstance(c, ast.Call) and isinstance(c.func, ast.Name) and c.func.id == "len" and len(c.args) == 1:
+            try:
+                kk = ctx.interp.kind_at(fi, c.args[0])
+            except Exception:
+                continue
+            if is_pair(kk):
+                n += 1
+                res.violation(rule, f, norm(c)[:90], "len(pair)", f"`{norm(c)}` is the length of a (source, target) pair - always 2 - not the number of nodes of the hyperedge", loc(fi, c))
+    if n == 0:
+        res.ok(rule, f, "no len() of a directed pair", "scan", loc(fi, fi.node))
+
+
+def check_empty_as_missing(ctx, res: Result, dotted, rule="G-EMPTYNONE"):
+    """`if d is None or np.size(d) == 0: d = <default>`: an EMPTY collection that the caller passed on purpose ("no hyperedge size is
+    taken into account") is replaced by the default like an omitted argument."""
+    v = ctx.view(dotted)
+    fi = v.fi
+    f = fi.short
+    res.rules.setdefault(rule, "an empty collection passed for a parameter is a value, not `not given`: it is not replaced by the default together with None")
+    n = 0
+    params = {a.arg for a in fi.params} | {a.arg for a in fi.node.args.kwonlyargs}
+    for i_ in walk_no_nested(fi.node):
+        if not (isinstance(i_, ast.If) and isinstance(i_.test, ast.BoolOp) and isinstance(i_.test.op, ast.Or)):
+            continue
+        nones = [c.left.id for c in i_.test.values if isinstance(c, ast.Compare) and len(c.ops) == 1 and isinstance(c.ops[0], ast.Is) and isinstance(c.left, ast.Name) and isinstance(c.comparators[0], ast.Constant) and c.comparators[0].value is None]
+        for p_ in nones:
+            if p_ not in params:
+                continue
+            empt = [x for o_ in i_.test.values for x in ast.walk(o_) if isinstance(x, ast.Compare) and len(x.ops) == 1 and isinstance(x.ops[0], ast.Eq) and isinstance(x.comparators[0], ast.Constant) and x.comparators[0].value == 0 and isinstance(x.left, ast.Call) and norm(x.left.func).split(".")[-1] in ("len", "size") and x.left.args and norm(x.left.args[0]) == p_]
+            rebinds = [a for a in i_.body if isinstance(a, ast.Assign) and any(isinstance(t, ast.Name) and t.id == p_ for t in a.targets)]
+            if empt and rebinds:
+                n += 1
+                res.violation(rule, f, norm(i_.test)[:90], p_, f"`{norm(empt[0])}` sends an empty `{p_}` down the same path as `{p_} is None` (`{norm(rebinds[0])[:40]}`): an empty collection given on purpose - no size / no item selected, every sum 0 - is silently replaced by the default", loc(fi, i_))
+    if n == 0:
+        res.ok(rule, f, "no empty collection treated as missing", "scan", loc(fi, fi.node))
 
 def check_reused_record(ctx, res: Result, dotted, rule="G-REUSEDREC"):
     """One mutable record (a dict created once) is filled item after item with `.update(...)` / element stores and handed to a
